@@ -136,14 +136,7 @@ def det_case(rec, index, rng, tier):
     zipped_class = space["mode"] == "sequential" and len(en) >= 2
     names = c05.dim_names(space)
     short = list(names.values())
-    g1, g2, d = space["g1"], space["g2"], space["defaults"]
-    pspec = {}
-    pspec.setdefault(g1, []).append({"name": "m1", "func": "vf.checks.c07.slow_enc", "arguments": {
-        "a": d[f"pipeline.{g1}.m1.arguments.a"], "b": d[f"pipeline.{g1}.m1.arguments.b"],
-        "v": list(d[f"pipeline.{g1}.m1.arguments.v"]), "s": d[f"pipeline.{g1}.m1.arguments.s"], "row": 0, "delay": True}})
-    pspec.setdefault(g2, []).append({"name": "m2", "func": "vf.checks.c07.slow_enc", "arguments": {
-        "a": d[f"pipeline.{g2}.m2.arguments.a"], "b": d[f"pipeline.{g2}.m2.arguments.b"],
-        "v": list(d[f"pipeline.{g2}.m2.arguments.v"]), "row": 1, "delay": True}})
+    pspec = c05.probe_pipeline(space, func="vf.checks.c07.slow_enc", extra={"delay": True})
     case = {k: space[k] for k in ("g1", "g2", "mode", "params")}
 
     def observation(dask_on):
